@@ -49,6 +49,11 @@ MUTANTS = [
     ('C20', 'lab.py', 'signal_rx[:2*l-1]', 'signal_rx[:2*l]', 'sync-1101-sps2-d0', 'lag l admitted'),
     ('C13', 'utils.py', '    p_OFF = p_ON/er   # OFF slot average optical power, without amplification\n\n    mu_ASE', '    p_OFF = p_ON/er**0.5   # OFF\n\n    mu_ASE', 'terms-ook-noamp', 'extinction ratio applied as amplitude ratio'),
     ('C13', 'utils.py', 'S_th = 4 * kB * T * BW_el * R_L   # thermal noise variance, in [V^2]', 'S_th = 2 * kB * T * BW_el * R_L   # thermal', 'terms-ook-noamp', 'thermal noise halved in noise_variances'),
+    ('C13', 'ppm.py', '(1-Q((I1-I0+s1*x)/s0))**(M-1)', '(1-Q((I1+s1*x)/s0))**(M-1)', 'estimator-ppm4-soft', 'soft estimator integrand uses mu1 instead of mu1-mu0'),
+    ('C13', 'ppm.py', 'quad(lambda x: (1-Q((mu1+s1*x)/s0))**(M-1)', 'quad(lambda x: (1-Q((mu1+s0*x)/s1))**(M-1)', 'theory-ppm4-soft', 'sigmas swapped in the soft-decision integrand'),
+    ('C08', 'devices.py', 'else min(step(A), length)', 'else step(A)', 'finite-weak-lossy-pol1', 'first split step not limited to the fibre (weak-field NaN returns)'),
+    ('C18', 'utils.py', 'data = np.sort(data).astype(float)', 'data = np.sort(data)', 'shortest-int16', 'lag differences in the narrow integer dtype again'),
+    ('C16', 'devices.py', 'D = D[min(ic, D.size - 1)]', 'D = D[ic]', 'after-ode-pol1', 'summary index past the end of the dispersion array'),
     ('C16', 'devices.py', 'dSdz = -1j * (s_ * S + k * R)', 'dSdz = -1j * (s_ * S - k * R)', 'ode-uniform', 'sign of the coupling term'),
     ('C03', 'ook.py', '        if not isinstance(Tx, binary_sequence):\n            Tx = binary_sequence( Tx )', '        if not isinstance(Tx, binary_sequence) and not isinstance(Rx, binary_sequence):\n            Tx = binary_sequence( Tx )', 'counter-ook-list-bs', 'Tx conversion skipped'),
 ]
